@@ -330,9 +330,9 @@ const RAW: &[&str] = &["a", "b", "|", "\"", "\n", "\r", "\r\n", " ", "NULL", "é
 fn case_raw(rng: &mut Rng, i: u64, rt: &tokio::runtime::Runtime, tmp: &Path) -> String {
     let ncols = rng.range(1, 3) as usize;
     let mut text = (0..ncols).map(|c| format!("c{c}")).collect::<Vec<_>>().join("|");
-    text.push_str(rng.pick(&["\n", "\n", "\r\n", "\r"]));
+    text.push_str(*rng.pick(&["\n", "\n", "\r\n", "\r"]));
     let n = rng.range(0, 12);
-    for _ in 0..n { text.push_str(rng.pick(RAW)); }
+    for _ in 0..n { text.push_str(*rng.pick(RAW)); }
     let path = tmp.join(format!("raw{i}.csv"));
     std::fs::write(&path, &text).expect("write raw file");
     let r = catch_unwind(AssertUnwindSafe(|| rt.block_on(async {
@@ -394,7 +394,7 @@ fn case_ph(rng: &mut Rng, i: u64) -> String {
     let npieces = rng.range(0, 5);
     for _ in 0..npieces {
         if !structured && rng.chance(1, 2) {
-            input.push_str(rng.pick(NOISE));
+            input.push_str(*rng.pick(NOISE));
             continue;
         }
         match rng.below(6) {
